@@ -267,7 +267,8 @@ VIEW_OPS = {
     'aten.mT.default', 'aten.mH.default', 'aten.chunk.default', 'aten.real.default', 'aten.numpy_T.default',
     'aten.view.dtype', 'aten.unsafe_chunk.default', 'aten.unsafe_split_with_sizes.default',
     'aten._conj.default', 'aten.resolve_conj.default', 'aten.resolve_neg.default', 'aten.lift.default',
-    'aten.set_.source_Tensor', 'aten.set_.source_Storage_storage_offset', 'aten.set_.source_Storage',
+    'aten.set_.source_Tensor', 'aten.values.default', 'aten.crow_indices.default', 'aten.col_indices.default',
+    'aten.ccol_indices.default', 'aten.row_indices.default', 'aten._values.default', 'aten._indices.default', 'aten.indices.default', 'aten.set_.source_Storage_storage_offset', 'aten.set_.source_Storage',
 }
 # operators whose result does not depend on the *values* of their tensor arguments
 VALUE_FREE = {
@@ -304,6 +305,13 @@ class SymMode(TorchDispatchMode):
 
     def is_sym(self, t):
         sh = self.ctx.shadow
+        if t.layout != torch.strided:
+            with _disable_current_modes():
+                try:
+                    parts = [t._values()] if t.layout == torch.sparse_coo else [t.values()]
+                except Exception:
+                    return False
+            return any(self.is_sym(p) for p in parts)
         if not sh or t.numel() == 0:
             return False
         for a in _addrs(t):
@@ -315,7 +323,40 @@ class SymMode(TorchDispatchMode):
         with _disable_current_modes(), torch._C.DisableTorchFunctionSubclass():
             return t.detach().reshape(-1).tolist()
 
+    def sparse_terms(self, t):
+        """dense-equivalent flat term list of a 2-D sparse tensor (COO/CSR/CSC/BSR/BSC) by the layout's definition"""
+        if t.dim() != 2:
+            raise Unsupported('sparse tensor with batch dims')
+        R, C = t.shape
+        dense = [z3.RealVal(0)] * (R * C)
+        with _disable_current_modes():
+            lay = t.layout
+            if lay == torch.sparse_coo:
+                idx, vals = t._indices(), t._values()
+                vt = [to_real(x) for x in self.full_terms(vals)]
+                for k, (i, j) in enumerate(idx.t().tolist()):
+                    dense[i * C + j] = dense[i * C + j] + vt[k]
+                return [simp(d) for d in dense]
+            vals = t.values()
+            vt = [to_real(x) for x in self.full_terms(vals)]
+            if lay in (torch.sparse_csr, torch.sparse_bsr):
+                comp, plain = t.crow_indices().tolist(), t.col_indices().tolist()
+            else:
+                comp, plain = t.ccol_indices().tolist(), t.row_indices().tolist()
+            bh, bw = (vals.shape[-2], vals.shape[-1]) if vals.dim() == 3 else (1, 1)
+            for c in range(len(comp) - 1):
+                for k in range(comp[c], comp[c + 1]):
+                    p = plain[k]
+                    bi, bj = (c, p) if lay in (torch.sparse_csr, torch.sparse_bsr) else (p, c)
+                    for u in range(bh):
+                        for v in range(bw):
+                            i, j = bi * bh + u, bj * bw + v
+                            dense[i * C + j] = dense[i * C + j] + vt[(k * bh + u) * bw + v]
+        return [simp(d) for d in dense]
+
     def full_terms(self, t):
+        if t.layout != torch.strided:
+            return self.sparse_terms(t)
         ts = self.terms(t)
         if all(x is not None for x in ts):
             return ts
@@ -325,11 +366,37 @@ class SymMode(TorchDispatchMode):
 
     def poisons(self, t):
         po = self.ctx.poison
-        if not po or t.numel() == 0:
+        if t.layout != torch.strided or not po or t.numel() == 0:
             return [None] * t.numel()
         return [po.get(a) for a in _addrs(t)]
 
+    def write_sparse(self, t, dense):
+        """store a dense-equivalent term list into a sparse tensor's values (entries outside the pattern must be 0)"""
+        R, C = t.shape
+        with _disable_current_modes():
+            lay = t.layout
+            if lay == torch.sparse_coo:
+                vals, pos = t._values(), [(i, j) for i, j in t._indices().t().tolist()]
+            else:
+                vals = t.values()
+                if vals.dim() != 1:
+                    raise Unsupported('write into block-sparse output')
+                if lay == torch.sparse_csr:
+                    comp, plain = t.crow_indices().tolist(), t.col_indices().tolist()
+                    pos = [(c, plain[k]) for c in range(len(comp) - 1) for k in range(comp[c], comp[c + 1])]
+                else:
+                    comp, plain = t.ccol_indices().tolist(), t.row_indices().tolist()
+                    pos = [(plain[k], c) for c in range(len(comp) - 1) for k in range(comp[c], comp[c + 1])]
+        stored = set(pos)
+        for i in range(R):
+            for j in range(C):
+                if (i, j) not in stored and not is_zero(simp(dense[i * C + j])):
+                    raise Unsupported('sparse output pattern misses a structurally non-zero entry')
+        self.write(vals, [dense[i * C + j] for (i, j) in pos])
+
     def write(self, t, terms, poison=None):
+        if t.layout != torch.strided:
+            return self.write_sparse(t, terms)
         ad = _addrs(t)
         sh = self.ctx.shadow
         assert len(ad) == len(terms), (len(ad), len(terms))
@@ -353,6 +420,8 @@ class SymMode(TorchDispatchMode):
 
     def clear(self, t):
         self.ctx.keep.append(t)
+        if t.layout != torch.strided:
+            return
         if (not self.ctx.shadow and not self.ctx.poison) or t.numel() == 0:
             return
         sh, po = self.ctx.shadow, self.ctx.poison
@@ -460,10 +529,19 @@ def pointwise(fn, pfn=None, sel=False):
         inplace = name.split('.')[1].endswith('_')
         alpha = kwargs.get('alpha', None)
         kw = {k: v for k, v in kwargs.items()}
-        out = func(*args, **kw)
-        target = args[0] if inplace else out
         ins = list(args)
-        cols = _bcast(m, ins, target.shape, m.full_terms)
+        if inplace:
+            # operands must be read BEFORE the real kernel overwrites the target's payload
+            target = args[0]
+            cols = _bcast(m, ins, target.shape, m.full_terms)
+            pcols0 = _bcast(m, [a if isinstance(a, torch.Tensor) else None for a in ins], target.shape, m.poisons) \
+                if m.ctx.track_poison and target.numel() else None
+            out = func(*args, **kw)
+        else:
+            out = func(*args, **kw)
+            target = out
+            cols = _bcast(m, ins, target.shape, m.full_terms)
+            pcols0 = None
         cols = [[_scalar_term(x) for x in c] if not isinstance(a, torch.Tensor) else c for a, c in zip(ins, cols)]
         extra = {}
         if alpha is not None:
@@ -475,7 +553,7 @@ def pointwise(fn, pfn=None, sel=False):
         res = [simp(fn(ctx, *c, **extra)) for c in zip(*cols)] if target.numel() else []
         pres = None
         if ctx.track_poison and target.numel():
-            pcols = _bcast(m, [a if isinstance(a, torch.Tensor) else None for a in ins], target.shape, m.poisons)
+            pcols = pcols0 if pcols0 is not None else _bcast(m, [a if isinstance(a, torch.Tensor) else None for a in ins], target.shape, m.poisons)
             pres = []
             for k, c in enumerate(zip(*cols)):
                 ps = [pc[k] for pc in pcols]
@@ -1257,8 +1335,8 @@ def cholesky_terms(ctx, M, n):
 # --------------------------------------------------------------------------- path exploration
 
 class PathResult:
-    def __init__(self, ctx, value=None, error=None):
-        self.ctx, self.value, self.error = ctx, value, error
+    def __init__(self, ctx, value=None, error=None, raised=None):
+        self.ctx, self.value, self.error, self.raised = ctx, value, error, raised
 
 
 def explore(program, max_paths=64, max_decisions=40, feas_timeout_ms=2000, track_poison=False, assume_fn=None,
@@ -1276,6 +1354,7 @@ def explore(program, max_paths=64, max_decisions=40, feas_timeout_ms=2000, track
         ctx.f32 = f32
         err = None
         val = None
+        raised = None
         try:
             with SymMode(ctx) as m:
                 val = program(m)
@@ -1283,10 +1362,264 @@ def explore(program, max_paths=64, max_decisions=40, feas_timeout_ms=2000, track
             continue
         except (Unsupported, BoundExhausted) as e:
             err = e
+        except Exception as e:      # the program under test raised on this path: a path outcome, not an engine error
+            raised = e
         npaths += 1
         # schedule alternatives for decisions made beyond the forced prefix
         for i in range(len(ctx.trace) - 1, len(forced) - 1, -1):
             pred, taken, alt = ctx.trace[i]
             if alt:
                 stack.append([t for (_, t, _) in ctx.trace[:i]] + [not taken])
-        yield PathResult(ctx, val, err)
+        yield PathResult(ctx, val, err, raised)
+
+
+# --------------------------------------------------------------------------- accumulate-style movement
+
+@handler('aten.scatter_add.default', 'aten.scatter_add_.default')
+def _scatter_add(m, func, args, kwargs):
+    self_t, dim, index, src = args[0], args[1], args[2], args[3]
+    inplace = str(func).split('.')[1].endswith('_')
+    ft = [to_real(t) for t in m.full_terms(self_t)]
+    fs = [to_real(t) for t in m.full_terms(src)]
+    with _disable_current_modes():
+        T = torch.arange(self_t.numel()).view(self_t.shape)
+        tgt = torch.gather(T, dim, index).reshape(-1).tolist()
+        sl = tuple(slice(0, s) for s in index.shape)
+        sid = torch.arange(src.numel()).view(src.shape)[sl].reshape(-1).tolist()
+    out = func(*args, **kwargs)
+    acc = list(ft)
+    for t, s in zip(tgt, sid):
+        acc[t] = acc[t] + fs[s]
+    m.write(self_t if inplace else out, [simp(a) for a in acc])
+    return out
+
+
+@handler('aten.index_add.default', 'aten.index_add_.default')
+def _index_add(m, func, args, kwargs):
+    self_t, dim, index, src = args[0], args[1], args[2], args[3]
+    alpha = rat(kwargs.get('alpha', 1))
+    inplace = str(func).split('.')[1].endswith('_')
+    ft = [to_real(t) for t in m.full_terms(self_t)]
+    fs = [to_real(t) for t in m.full_terms(src)]
+    with _disable_current_modes():
+        T = torch.arange(self_t.numel()).view(self_t.shape)
+        tgt = T.index_select(dim, index).reshape(-1).tolist()
+    out = func(*args, **kwargs)
+    acc = list(ft)
+    for t, s in zip(tgt, fs):
+        acc[t] = acc[t] + alpha * s
+    m.write(self_t if inplace else out, [simp(a) for a in acc])
+    return out
+
+
+# --------------------------------------------------------------------------- out= variants
+
+def _out_variant(base_name):
+    def h(m, func, args, kwargs):
+        out_t = kwargs['out']
+        kw = {k: v for k, v in kwargs.items() if k != 'out'}
+        base = HANDLERS[base_name]
+        basefunc = getattr(getattr(aten, base_name.split('.')[1]), base_name.split('.')[2])
+        res = base(m, basefunc, args, kw)
+        # copy into out (terms and payload)
+        ts = m.terms(res)
+        with _disable_current_modes():
+            out_t.copy_(res)
+        m.write(out_t, ts)
+        return out_t
+    return h
+
+
+for _b in ('mm', 'bmm', 'mv', 'add', 'sub', 'mul', 'div'):
+    _bn = 'aten.%s.%s' % (_b, 'default' if _b in ('mm', 'bmm', 'mv') else 'Tensor')
+    HANDLERS['aten.%s.out' % _b] = _out_variant(_bn)
+
+
+# --------------------------------------------------------------------------- LAPACK-class kernels as contract stubs
+
+def _sym_lower(ctx, n, name):
+    L = [[z3.RealVal(0)] * n for _ in range(n)]
+    for i in range(n):
+        for j in range(i + 1):
+            L[i][j] = ctx.fresh('%s_%d%d' % (name, i, j))
+    return L
+
+
+def _leading_minors(M, n):
+    return [det_terms([M[r * n + c] for r in range(k) for c in range(k)], k) for k in range(1, n + 1)]
+
+
+@handler('aten.linalg_cholesky_ex.default')
+def _cholesky_ex_stub(m, func, args, kwargs):
+    """contract stub (LAPACK potrf): info==0 <=> A symmetric positive definite (Sylvester), and then L lower, diag>0,
+    L L^T == A.  If info != 0 the factor is an arbitrary finite matrix."""
+    A = args[0]
+    upper = kwargs.get('upper', False)
+    n = A.shape[-1]
+    if n > 3:
+        raise Unsupported('cholesky_ex stub n>3')
+    out = func(*args, **kwargs)
+    L_t, info_t = out[0], out[1]
+    ft = [to_real(t) for t in m.full_terms(A)]
+    nb = A.numel() // (n * n)
+    ctx = m.ctx
+    Lterms, infos = [], []
+    for b in range(nb):
+        M = ft[b * n * n:(b + 1) * n * n]
+        L = _sym_lower(ctx, n, 'chol')
+        info = ctx.fresh('chol_info', 'int')
+        LLt = [z3.Sum([L[i][k] * L[j][k] for k in range(n)]) for i in range(n) for j in range(n)]
+        # potrf reads one triangle only
+        tri = [(i, j) for i in range(n) for j in range(n) if (j <= i if not upper else j >= i)]
+        Ms = list(M)
+        for i in range(n):
+            for j in range(n):
+                src = (i, j) if (i, j) in tri else (j, i)
+                Ms[i * n + j] = M[src[0] * n + src[1]]
+        pd = z3.And([d > 0 for d in _leading_minors(Ms, n)])
+        ctx.axioms += [(info == 0) == pd,
+                       z3.Implies(info == 0, z3.And([LLt[i] == Ms[i] for i in range(n * n)] + [L[i][i] > 0 for i in range(n)]))]
+        if upper:
+            Lterms += [L[j][i] for i in range(n) for j in range(n)]
+        else:
+            Lterms += [L[i][j] for i in range(n) for j in range(n)]
+        infos.append(info)
+    m.write(L_t, Lterms)
+    m.write(info_t, infos)
+    ctx.stubs.add('linalg.cholesky_ex: contract stub (info==0 <=> leading minors of the read triangle > 0; then L L^T = A, diag > 0)')
+    return out
+
+
+@handler('aten.linalg_cholesky.default', 'aten.cholesky.default')
+def _cholesky_alg(m, func, args, kwargs):
+    A = args[0]
+    upper = kwargs.get('upper', args[1] if len(args) > 1 else False)
+    n = A.shape[-1]
+    if n > 3:
+        raise Unsupported('cholesky n>3')
+    out = func(*args, **kwargs)
+    ft = [to_real(t) for t in m.full_terms(A)]
+    nb = A.numel() // (n * n)
+    res = []
+    for b in range(nb):
+        L = cholesky_terms(m.ctx, ft[b * n * n:(b + 1) * n * n], n)
+        if upper:
+            L = [L[j * n + i] for i in range(n) for j in range(n)]
+        res += L
+    m.write(out, res)
+    m.ctx.stubs.add('linalg.cholesky: by the Cholesky-Banachiewicz algorithm over reals (input assumed PD)')
+    return out
+
+
+def _solve_lower(L, B, n, k):
+    """forward substitution L Y = B (B n x k, row-major)"""
+    Y = [None] * (n * k)
+    for c in range(k):
+        for i in range(n):
+            s = B[i * k + c] - (z3.Sum([L[i * n + j] * Y[j * k + c] for j in range(i)]) if i else 0)
+            Y[i * k + c] = simp(s / L[i * n + i])
+    return Y
+
+
+def _solve_upper(U, B, n, k):
+    Y = [None] * (n * k)
+    for c in range(k):
+        for i in range(n - 1, -1, -1):
+            s = B[i * k + c] - (z3.Sum([U[i * n + j] * Y[j * k + c] for j in range(i + 1, n)]) if i < n - 1 else 0)
+            Y[i * k + c] = simp(s / U[i * n + i])
+    return Y
+
+
+@handler('aten.cholesky_solve.default')
+def _cholesky_solve(m, func, args, kwargs):
+    """by definition: X = (L L^T)^-1 B via two triangular substitutions (reads the stated triangle only)"""
+    B, L_t = args[0], args[1]
+    upper = args[2] if len(args) > 2 else kwargs.get('upper', False)
+    n, k = B.shape[-2], B.shape[-1]
+    if n > 4:
+        raise Unsupported('cholesky_solve n>4')
+    out = func(*args, **kwargs)
+    fb = [to_real(t) for t in m.full_terms(B)]
+    fl = [to_real(t) for t in m.full_terms(L_t)]
+    nb = B.numel() // (n * k)
+    nl = L_t.numel() // (n * n)
+    res = []
+    for b in range(nb):
+        Lm = fl[(b % nl) * n * n:((b % nl) + 1) * n * n]
+        if upper:
+            Lm = [Lm[j * n + i] for i in range(n) for j in range(n)]     # L = U^T
+        Lm = [Lm[i * n + j] if j <= i else z3.RealVal(0) for i in range(n) for j in range(n)]
+        Bm = fb[b * n * k:(b + 1) * n * k]
+        Y = _solve_lower(Lm, Bm, n, k)
+        Lt = [Lm[j * n + i] for i in range(n) for j in range(n)]
+        X = _solve_upper(Lt, Y, n, k)
+        res += X
+    m.write(out, res)
+    return out
+
+
+@handler('aten.linalg_pinv.atol_rtol_tensor', 'aten.linalg_pinv.atol_rtol_float', 'aten.linalg_pinv.default', 'aten.pinverse.default')
+def _pinv_stub(m, func, args, kwargs):
+    """contract stub: P = pinv(A) is a fresh matrix satisfying the four Moore-Penrose equations; for square A with
+    det != 0 additionally P == A^-1 (n <= 3, adjugate formula)."""
+    A = args[0]
+    out = func(*args, **kwargs)
+    r, c = A.shape[-2], A.shape[-1]
+    if r > 4 or c > 4:
+        raise Unsupported('pinv stub larger than 4')
+    ft = [to_real(t) for t in m.full_terms(A)]
+    nb = A.numel() // (r * c)
+    ctx = m.ctx
+    res = []
+    for b in range(nb):
+        M = [[ft[b * r * c + i * c + j] for j in range(c)] for i in range(r)]
+        P = [[ctx.fresh('pinv_%d%d' % (i, j)) for j in range(r)] for i in range(c)]
+        mm_ = lambda X, Y: [[z3.Sum([X[i][l] * Y[l][j] for l in range(len(Y))]) for j in range(len(Y[0]))] for i in range(len(X))]
+        AP, PA = mm_(M, P), mm_(P, M)
+        APA, PAP = mm_(AP, M), mm_(PA, P)
+        ax = []
+        ax += [APA[i][j] == M[i][j] for i in range(r) for j in range(c)]
+        ax += [PAP[i][j] == P[i][j] for i in range(c) for j in range(r)]
+        ax += [AP[i][j] == AP[j][i] for i in range(r) for j in range(i)]
+        ax += [PA[i][j] == PA[j][i] for i in range(c) for j in range(i)]
+        if r == c and r <= 3:
+            flatM = [M[i][j] for i in range(r) for j in range(r)]
+            d = det_terms(flatM, r)
+            adj = adjugate_terms(flatM, r)
+            ax.append(z3.Implies(d != 0, z3.And([P[i][j] * d == adj[i * r + j] for i in range(r) for j in range(r)])))
+        ctx.axioms += ax
+        res += [P[i][j] for i in range(c) for j in range(r)]
+    m.write(out, res)
+    ctx.stubs.add('linalg.pinv: contract stub (four Moore-Penrose equations; = inverse when square and det != 0)')
+    ctx.pinv_calls = getattr(ctx, 'pinv_calls', []) + [dict(kwargs, nargs=len(args), P=list(res), extra=list(args[1:]))]
+    return out
+
+
+@handler('aten.linalg_lstsq.default')
+def _lstsq_stub(m, func, args, kwargs):
+    """contract stub: solution X is a fresh matrix satisfying the normal equations A^T (A X - B) == 0"""
+    A, B = args[0], args[1]
+    out = func(*args, **kwargs)
+    r, c, k = A.shape[-2], A.shape[-1], B.shape[-1]
+    if max(r, c) > 4:
+        raise Unsupported('lstsq stub larger than 4')
+    fa = [to_real(t) for t in m.full_terms(A)]
+    fb = [to_real(t) for t in m.full_terms(B)]
+    nb = A.numel() // (r * c)
+    ctx = m.ctx
+    res = []
+    for b in range(nb):
+        M = [[fa[b * r * c + i * c + j] for j in range(c)] for i in range(r)]
+        Bm = [[fb[b * r * k + i * k + j] for j in range(k)] for i in range(r)]
+        X = [[ctx.fresh('lstsq_%d%d' % (i, j)) for j in range(k)] for i in range(c)]
+        for j in range(k):
+            resid = [z3.Sum([M[i][l] * X[l][j] for l in range(c)]) - Bm[i][j] for i in range(r)]
+            for l in range(c):
+                ctx.axioms.append(z3.Sum([M[i][l] * resid[i] for i in range(r)]) == 0)
+        res += [X[i][j] for i in range(c) for j in range(k)]
+    m.write(out[0], res)
+    for o in out[1:]:
+        m.clear(o)
+    ctx.stubs.add('linalg.lstsq: contract stub (normal equations)')
+    ctx.lstsq_calls = getattr(ctx, 'lstsq_calls', []) + [dict(kwargs, nargs=len(args), extra=[a for a in args[2:]], X=list(res))]
+    return out
